@@ -10,59 +10,6 @@ import (
 	"github.com/google/certificate-transparency-go/x509/pkix"
 )
 
-// A small DER builder written for the harness (definite lengths, short/long form).
-func derLen(n int) []byte {
-	if n < 0x80 {
-		return []byte{byte(n)}
-	}
-	if n < 0x100 {
-		return []byte{0x81, byte(n)}
-	}
-	return []byte{0x82, byte(n >> 8), byte(n)}
-}
-
-func derTLV(tag byte, parts ...[]byte) []byte {
-	var c []byte
-	for _, p := range parts {
-		c = append(c, p...)
-	}
-	return append(append([]byte{tag}, derLen(len(c))...), c...)
-}
-
-var (
-	c03OIDPoison = []byte{0x06, 0x0a, 0x2b, 0x06, 0x01, 0x04, 0x01, 0xd6, 0x79, 0x02, 0x04, 0x03}
-	c03OIDSCT    = []byte{0x06, 0x0a, 0x2b, 0x06, 0x01, 0x04, 0x01, 0xd6, 0x79, 0x02, 0x04, 0x02}
-	c03OIDAKI    = []byte{0x06, 0x03, 0x55, 0x1d, 0x23}
-	c03OIDKU     = []byte{0x06, 0x03, 0x55, 0x1d, 0x0f}
-	c03OIDBC     = []byte{0x06, 0x03, 0x55, 0x1d, 0x13}
-)
-
-func c03Ext(oid []byte, critical bool, value []byte) []byte {
-	if critical {
-		return derTLV(0x30, oid, []byte{0x01, 0x01, 0xff}, derTLV(0x04, value))
-	}
-	return derTLV(0x30, oid, derTLV(0x04, value))
-}
-
-// c03TBS assembles a canonical v3 TBSCertificate from its parts.
-func c03TBS(serial byte, sigOID byte, issuer, subject []byte, keyBits byte, exts [][]byte) []byte {
-	version := []byte{0xa0, 0x03, 0x02, 0x01, 0x02}
-	ser := []byte{0x02, 0x01, serial}
-	alg := derTLV(0x30, []byte{0x06, 0x01, sigOID})
-	validity := derTLV(0x30, derTLV(0x17, []byte("250101000000Z")), derTLV(0x18, []byte("20510101000000Z")))
-	spki := derTLV(0x30, derTLV(0x30, []byte{0x06, 0x01, sigOID}), []byte{0x03, 0x02, 0x00, keyBits})
-	parts := [][]byte{version, ser, alg, issuer, validity, subject, spki}
-	if len(exts) > 0 {
-		parts = append(parts, derTLV(0xa3, derTLV(0x30, exts...)))
-	} else if c03KeepEmptyExtensions {
-		// removing the last extension leaves the (now empty) extensions container in place
-		parts = append(parts, derTLV(0xa3, derTLV(0x30)))
-	}
-	return derTLV(0x30, parts...)
-}
-
-var c03KeepEmptyExtensions bool
-
 type c03Content struct {
 	serial, sigOID, keyBits byte
 	issuer, subject         []byte
